@@ -304,7 +304,7 @@ theorem SameCore.trans {x y z : St} (h1 : SameCore x y) (h2 : SameCore y z) : Sa
 theorem newEntry_core (a : Nat) (x : St) : SameCore x (newEntry a x) := SameCore.refl x
 
 theorem lsEnsure_core (d : Nat) (x : St) : SameCore x (lsEnsure d x) := by
-  unfold lsEnsure; split
+  unfold lsEnsure lsFlag lsEnsure0; split
   · exact SameCore.refl x
   · exact newEntry_core d x
 
@@ -658,10 +658,10 @@ no lookup pending ⇒ nothing buffered -/
 def LsNoLossA (s : St) : Prop := ∀ d, ((s.loct d && s.pending d) = false → s.lsBuf d = []) ∧ s.lsLost d = []
 
 /-- invariant B (registration recognises a running lookup by its retransmit counter; LocT entries may be purged):
-no counter ⇒ nothing buffered; an entry that does not exist is not pending; pending ⇒ counter -/
+no counter ⇒ nothing buffered; an entry that does not exist is not pending.  ("pending ⇒ counter" holds only while
+`_ls_lock` is free – the flag is stored by the nested `loc_t_lock` section before the counter – and is not needed.) -/
 def LsNoLossB (s : St) : Prop :=
-  ∀ d, (s.lsCnt d = none → s.lsBuf d = []) ∧ (s.loct d = false → s.pending d = false) ∧
-    (s.pending d = true → (s.lsCnt d).isSome = true) ∧ s.lsLost d = []
+  ∀ d, (s.lsCnt d = none → s.lsBuf d = []) ∧ (s.loct d = false → s.pending d = false) ∧ s.lsLost d = []
 
 /-- the registration core on the ghost-free LS fields, as counts -/
 theorem lsRegCore_counts (fx : Bool) (o r' d' : Nat) (x : St) (d r : Nat) :
@@ -890,7 +890,7 @@ theorem lsRegCore_NoLossA (o r' d' : Nat) (x : St) (h : LsNoLossA x) : LsNoLossA
   intro d
   obtain ⟨h1, h2⟩ := h d
   unfold lsRegCore
-  simp only [Bool.false_and, Bool.or_false, Bool.false_eq_true, if_false]
+  simp only [Bool.false_and, Bool.false_or, Bool.not_false, Bool.true_and, Bool.false_eq_true, if_false]
   by_cases hd : d = d'
   · subst hd
     split
@@ -907,41 +907,24 @@ theorem lsRegCore_NoLossA (o r' d' : Nat) (x : St) (h : LsNoLossA x) : LsNoLossA
 
 theorem lsRegCore_NoLossB (o r' d' : Nat) (x : St) (h : LsNoLossB x) : LsNoLossB (lsRegCore true o r' d' x) := by
   intro d
-  obtain ⟨h1, h2, h3, h4⟩ := h d
+  obtain ⟨h1, h2, h4⟩ := h d
   unfold lsRegCore
-  simp only [Bool.true_and, if_true]
+  simp only [Bool.true_and, Bool.not_true, Bool.false_and, Bool.or_false]
   by_cases hd : d = d'
   · subst hd
     split
+    · rename_i hs
+      refine ⟨?_, h2, h4⟩
+      intro hn; rw [hn] at hs; cases hs
     · rename_i hc
-      simp only [Bool.or_eq_true, Bool.and_eq_true] at hc
-      have hs : (x.lsCnt d).isSome = true := by
-        rcases hc with ⟨_, hp⟩ | hc
-        · exact h3 hp
-        · exact hc
-      refine ⟨?_, ?_, ?_, h4⟩
-      · intro hn; rw [hn] at hs; cases hs
-      · intro hl
-        have hl' : x.loct d = false := hl
-        simp only [hl', Bool.false_eq_true, if_false]; exact h2 hl'
-      · intro _; exact hs
-    · rename_i hc
-      simp only [Bool.or_eq_true, Bool.and_eq_true, not_or] at hc
       have hn : x.lsCnt d = none := by
         cases hcnt : x.lsCnt d with
         | none => rfl
         | some c => simp [hcnt] at hc
-      refine ⟨by simp, ?_, by simp, by simp [h1 hn, h4]⟩
-      intro hl
-      have hl' : x.loct d = false := hl
-      simp only [hl', Bool.not_false, if_true]; exact h2 hl'
+      exact ⟨by simp, h2, by simp [h1 hn, h4]⟩
   · split
-    · refine ⟨by simpa [upd, hd] using h1, ?_, ?_, h4⟩
-      · split <;> simpa [upd, hd] using h2
-      · split <;> simpa [upd, hd] using h3
-    · refine ⟨by simpa [upd, hd] using h1, ?_, ?_, by simpa [upd, hd] using h4⟩
-      · split <;> simpa [upd, hd] using h2
-      · split <;> simpa [upd, hd] using h3
+    · exact ⟨by simpa [upd, hd] using h1, h2, h4⟩
+    · exact ⟨by simpa [upd, hd] using h1, h2, by simpa [upd, hd] using h4⟩
 
 /-! LocT blocks and the two no-loss invariants -/
 
@@ -970,12 +953,23 @@ theorem newEntry_keeps (a : Nat) (x : St) (ha : x.loct a = false) : KeepsPending
   have hd : d ≠ a := by intro e; subst e; rw [ha] at hl; cases hl
   simp [newEntry, upd, hd, hl, hp]
 
-theorem lsEnsure_keeps (d : Nat) (x : St) : KeepsPending x (lsEnsure d x) := by
-  unfold lsEnsure
+theorem lsEnsure0_keeps (d : Nat) (x : St) : KeepsPending x (lsEnsure0 d x) := by
+  unfold lsEnsure0
   split
   · exact ⟨rfl, rfl, fun _ a b => ⟨a, b⟩⟩
   · rename_i hl
     exact newEntry_keeps d x (by simpa using hl)
+
+theorem lsEnsure_keeps (d : Nat) (x : St) : KeepsPending x (lsEnsure d x) := by
+  obtain ⟨e1, e2, e3⟩ := lsEnsure0_keeps d x
+  refine ⟨e1, e2, ?_⟩
+  intro d' hl hp
+  obtain ⟨a, b⟩ := e3 d' hl hp
+  refine ⟨a, ?_⟩
+  show upd (lsEnsure0 d x).pending d true d' = true
+  by_cases hd : d' = d
+  · subst hd; simp
+  · rw [upd_ne _ _ _ _ hd]; exact b
 
 theorem loctLearn_keeps (d : Nat) (x : St) : KeepsPending x (loctLearn d x) := by
   unfold loctLearn
@@ -1005,9 +999,9 @@ theorem TableStep.of_eq {x y : St} (e1 : y.lsBuf = x.lsBuf) (e2 : y.lsCnt = x.ls
 theorem LsNoLossB_step {x y : St} (h : TableStep x y) (hx : LsNoLossB x) : LsNoLossB y := by
   obtain ⟨e1, e2, e3, hk⟩ := h
   intro d
-  obtain ⟨h1, h2, h3, h4⟩ := hx d
+  obtain ⟨h1, h2, h4⟩ := hx d
   rw [e1, e2, e3]
-  exact ⟨h1, (hk d).1 h2, fun hp => h3 ((hk d).2 hp), h4⟩
+  exact ⟨h1, (hk d).1 h2, h4⟩
 
 theorem newEntry_step (a : Nat) (x : St) : TableStep x (newEntry a x) := by
   refine ⟨rfl, rfl, rfl, ?_⟩
@@ -1016,10 +1010,28 @@ theorem newEntry_step (a : Nat) (x : St) : TableStep x (newEntry a x) := by
   · subst hd; simp [newEntry]
   · simp [newEntry, upd, hd]
 
-theorem lsEnsure_step (d : Nat) (x : St) : TableStep x (lsEnsure d x) := by
-  unfold lsEnsure; split
+theorem lsEnsure0_step (d : Nat) (x : St) : TableStep x (lsEnsure0 d x) := by
+  unfold lsEnsure0; split
   · exact TableStep.refl x
   · exact newEntry_step d x
+
+theorem lsEnsure0_loct (d : Nat) (x : St) : (lsEnsure0 d x).loct d = true := by
+  unfold lsEnsure0; split
+  · assumption
+  · simp [newEntry]
+
+/-- the placeholder is created and flagged in one block: the flag lands on an entry that IS in the table -/
+theorem lsEnsure_NoLossB (d : Nat) (x : St) (h : LsNoLossB x) : LsNoLossB (lsEnsure d x) := by
+  have h0 := LsNoLossB_step (lsEnsure0_step d x) h
+  intro d'
+  obtain ⟨h1, h2, h4⟩ := h0 d'
+  refine ⟨h1, ?_, h4⟩
+  intro hl
+  have hl' : (lsEnsure0 d x).loct d' = false := hl
+  have hd : d' ≠ d := by
+    intro e; subst e; rw [lsEnsure0_loct] at hl'; cases hl'
+  show upd (lsEnsure0 d x).pending d true d' = false
+  rw [upd_ne _ _ _ _ hd]; exact h2 hl'
 
 theorem loctLearn_step (d : Nat) (x : St) : TableStep x (loctLearn d x) := by
   unfold loctLearn; split
@@ -1111,11 +1123,11 @@ theorem LsNoLossB_blk (p u : Bool) (f : St → St) (hf : Blk p false true u f) :
   | idB => exact fun x h => h
   | loctPurge d' _ =>
     intro x h d
-    obtain ⟨h1, h2, h3, h4⟩ := h d
+    obtain ⟨h1, h2, h4⟩ := h d
     simp only [loctPurge]
     by_cases hd : d = d'
     · subst hd; simp [h4]; exact h1
-    · simpa [upd, hd] using ⟨h1, h2, h3, h4⟩
+    · simpa [upd, hd] using ⟨h1, h2, h4⟩
   | lsRegisterOrQueue fx o d' hfx =>
     have hf : fx = true := by cases fx <;> simp_all
     subst hf
@@ -1129,7 +1141,7 @@ theorem LsNoLossB_blk (p u : Bool) (f : St → St) (hf : Blk p false true u f) :
     simp only [gucSend]
     repeat' split
     all_goals simp
-  | lsEnsure d' => exact fun x h => LsNoLossB_step (lsEnsure_step d' x) h
+  | lsEnsure d' => exact fun x h => lsEnsure_NoLossB d' x h
   | locTRefresh exp _ => exact fun x h => LsNoLossB_step (locTRefresh_step exp x) h
   | rxRecv mh o a k _ => exact fun x h => LsNoLossB_step (rxRecv_step mh o a k x) h
   | rxGetOrCreate o a _ => exact fun x h => LsNoLossB_step (rxGetOrCreate_step o a x) h
@@ -1137,40 +1149,28 @@ theorem LsNoLossB_blk (p u : Bool) (f : St → St) (hf : Blk p false true u f) :
   | rxPV o _ => exact fun x h => LsNoLossB_step (rxPV_step o x) h
   | lsRetransmitCheck mr o d' =>
     intro x h d
-    obtain ⟨h1, h2, h3, h4⟩ := h d
+    obtain ⟨h1, h2, h4⟩ := h d
     simp only [lsRetransmitCheck]
     by_cases hd : d = d'
     · subst hd
       split
-      · refine ⟨by simp, ?_, ?_, by simpa using h4⟩
-        · intro hl; simp at hl; simp [hl]; exact h2 hl
-        · intro hp
-          exfalso
-          cases hl : x.loct d
-          · simp [hl] at hp; rw [h2 hl] at hp; cases hp
-          · simp [hl] at hp
-      · refine ⟨by simp, h2, by simp, h4⟩
+      · refine ⟨by simp, ?_, by simpa using h4⟩
+        intro hl; simp at hl; simp [hl]; exact h2 hl
+      · exact ⟨by simp, h2, h4⟩
     · split
-      · refine ⟨by simpa [upd, hd] using h1, ?_, ?_, by simpa [upd, hd] using h4⟩
-        · split <;> simpa [upd, hd] using h2
-        · split <;> simpa [upd, hd] using h3
-      · refine ⟨by simpa [upd, hd] using h1, h2, by simpa [upd, hd] using h3, h4⟩
+      · refine ⟨by simpa [upd, hd] using h1, ?_, by simpa [upd, hd] using h4⟩
+        split <;> simpa [upd, hd] using h2
+      · exact ⟨by simpa [upd, hd] using h1, h2, h4⟩
   | lsReplyPop o d' =>
     intro x h d
-    obtain ⟨h1, h2, h3, h4⟩ := h d
+    obtain ⟨h1, h2, h4⟩ := h d
     simp only [lsReplyPop]
     by_cases hd : d = d'
     · subst hd
-      refine ⟨by simp, ?_, ?_, by simpa using h4⟩
-      · intro hl; simp [hl]; exact h2 hl
-      · intro hp
-        exfalso
-        cases hl : x.loct d
-        · simp [hl] at hp; rw [h2 hl] at hp; cases hp
-        · simp [hl] at hp
-    · refine ⟨by simpa [upd, hd] using h1, ?_, ?_, by simpa [upd, hd] using h4⟩
-      · split <;> simpa [upd, hd] using h2
-      · split <;> simpa [upd, hd] using h3
+      refine ⟨by simp, ?_, by simpa using h4⟩
+      intro hl; simp [hl]; exact h2 hl
+    · refine ⟨by simpa [upd, hd] using h1, ?_, by simpa [upd, hd] using h4⟩
+      split <;> simpa [upd, hd] using h2
   | loctLearn d' => exact fun x h => LsNoLossB_step (loctLearn_step d' x) h
   | _ =>
     intro x h
